@@ -1,6 +1,6 @@
 (* C06 — Every reported match carries the value registered for the matched pattern. *)
 From DV Require Import Model.Base Model.Nfa Model.BwBuild Model.BwSearch Model.Utf8 Model.CwBuild Model.Api Model.Spec
-     Model.Cert Proofs.BwCert Theory.SpecAdequacy Proofs.Leftmost Proofs.BwLeftmost Theory.LmfSpec Proofs.Utf8Props Proofs.CwCert.
+     Model.Cert Proofs.BwCert Theory.SpecAdequacy Proofs.Leftmost Proofs.BwLeftmost Theory.LmfSpec Proofs.Utf8Props Proofs.CwCert Proofs.TrieInv Proofs.BuildTrie Proofs.BuildCertLm Proofs.BuiltAutomata.
 Local Open Scope N_scope.
 
 (* every element of the three executable specifications is a true occurrence carrying a value
@@ -99,3 +99,28 @@ Proof.
   - apply IH; assumption.
 Qed.
 Print Assumptions value_unique.
+
+(* C06 with no certificate hypothesis (builder theorems of C01 and C03): on EVERY automaton
+   construction returns -- every match kind -- every reported match of the byte-wise searches is a
+   true occurrence carrying a value registered for exactly that byte string. *)
+Theorem bw_matches_sound_for_every_built_automaton :
+  forall (V : Type) (veqb : V -> V -> bool), (forall a b, veqb a b = true <-> a = b) ->
+  forall k nfb (pvs : list (list N * V)) (A : bw_automaton V),
+    (forall p v, In (p, v) pvs -> Forall (fun b => b < 256) p) -> 4 * total_len V pvs <= U32_MAX - 1 ->
+    bw_build_with_values V k nfb pvs = Ok A ->
+  forall h, Forall (fun b => b < 256) h ->
+    (k = Standard -> forall ms, (bw_find_overlapping_iter V A h = Ok ms \/ bw_find_overlapping_no_suffix_iter V A h = Ok ms) ->
+       forall s e v, In (s, e, v) ms -> (s < e <= length h)%nat /\ In (sub h s e, v) pvs)
+    /\ (k <> Standard -> forall ms, bw_leftmost_find_iter V A h = Ok ms ->
+       forall s e v, In (s, e, v) ms -> exists p, In (p, v) pvs /\ is_prefix p (skipn s h) = true /\ e = (s + length p)%nat).
+Proof.
+  intros V veqb Hv k nfb pvs A Hb Hs HA h Hh. split.
+  - intros -> ms [Hm|Hm] s e v Hin.
+    + exact (bw_overlapping_match_sound V veqb (fun a b => proj1 (Hv a b)) A pvs (built_cert V veqb Hv nfb pvs A Hb Hs HA) h ms Hh Hm s e v Hin).
+    + exact (bw_nosuffix_match_sound V veqb (fun a b => proj1 (Hv a b)) A pvs (built_cert V veqb Hv nfb pvs A Hb Hs HA) h ms Hh Hm s e v Hin).
+  - intros Hk ms Hm s e v Hin.
+    pose proof (bw_build_lm_cert_lemma V veqb (fun x => proj2 (Hv x x) eq_refl) k nfb pvs A Hk Hb Hs HA) as C.
+    destruct (bw_leftmost_match_sound V veqb (fun a b => proj1 (Hv a b)) A (regd V k pvs) C h ms Hh Hm s e v Hin) as (p & Hp & Hpre & He).
+    exists p. split; [|auto]. exact (proj1 (regd_facts k pvs) _ Hp).
+Qed.
+Print Assumptions bw_matches_sound_for_every_built_automaton.
